@@ -11,6 +11,11 @@ branch = `<tip>/<revno>/<appendOnly T|F>`;  master = `-` | branch
 
   bzr <pull|push> <graph> <src branch> <tgt branch> <master> <stop> <overwrite T|F>
       -> `<ok|E:…> <tgt tip>/<revno> <master tip>/<revno>|-`
+  bzrx <graph> <src branch> <tgt branch> <master> <stop> <overwrite T|F> <local T|F> <source-is-master T|F>
+      -> as `bzr pull`, for `pull(local=…)` and a pull from the master itself (master = the source then)
+  seq <graph> <branches joined by ,> <ops joined by ,>
+      op = `<pull|push>:<src index>:<tgt index>:<master index|->:<stop>:<overwrite T|F>`
+      -> after every op the state of all branches: `<tip>/<revno>,…` joined by `;`
   git <graph> <last tip> <revid tip> <overwrite T|F>      -> `<ok|E:…> <tip>`
   rel <graph> <a tip> <b tip>
       -> `<isAnc a b> <isAnc b a> <heads [a,b] sorted> <relation> <lefthand b|ghost> <revnoOf b|~> <present b>`
@@ -75,7 +80,38 @@ def Relation.toString : Relation → String
   | .bDescendsFromA => "b_descends_from_a" | .diverged => "diverged"
   | .aDescendsFromB => "a_descends_from_b" | .invalid => "invalid"
 
+def parseSeqOp (s : String) : Option Op :=
+  match s.splitOn ":" with
+  | [k, si, ti, mi, stop, ow] => do
+    let si ← si.toNat?
+    let ti ← ti.toNat?
+    let mi ← if mi == "-" then some none else mi.toNat?.map some
+    let stop ← parseStop stop
+    let ow ← parseBool ow
+    if k == "pull" then pure (.pull si ti mi stop ow)
+    else if k == "push" then pure (.push si ti mi stop ow)
+    else none
+  | _ => none
+
+def showState (s : List Br) : String := ",".intercalate (s.map showBr)
+
+/-- the states after every operation -/
+def runTrace (g : Graph) (s : List Br) : List Op → List String
+  | [] => []
+  | op :: rest => showState (step g s op) :: runTrace g (step g s op) rest
+
 def handle : List String → String
+  | ["bzrx", g, src, tgt, master, stop, ow, lo, sm] =>
+    match parseGraph g, parseBr src, parseBr tgt, parseMaster master, parseStop stop, parseBool ow, parseBool lo,
+        parseBool sm with
+    | some g, some src, some tgt, some master, some stop, some ow, some lo, some sm =>
+      if !wf g then "not-wf" else showOutcome (pullOpX g src tgt master stop ow lo sm)
+    | _, _, _, _, _, _, _, _ => "bad-op"
+  | ["seq", g, brs, ops] =>
+    match parseGraph g, (brs.splitOn ",").mapM parseBr, (ops.splitOn ",").mapM parseSeqOp with
+    | some g, some brs, some ops =>
+      if !wf g then "not-wf" else ";".intercalate (runTrace g brs ops)
+    | _, _, _ => "bad-op"
   | ["bzr", kind, g, src, tgt, master, stop, ow] =>
     match parseGraph g, parseBr src, parseBr tgt, parseMaster master, parseStop stop, parseBool ow with
     | some g, some src, some tgt, some master, some stop, some ow =>
